@@ -10,6 +10,7 @@ import (
 
 	"github.com/git-lfs/git-lfs/v3/errors"
 	"github.com/git-lfs/git-lfs/v3/tr"
+	"github.com/git-lfs/git-lfs/v3/verifhook"
 )
 
 const (
@@ -21,6 +22,9 @@ const (
 
 // CopyWithCallback copies reader to writer while performing a progress callback
 func CopyWithCallback(writer io.Writer, reader io.Reader, totalSize int64, cb CopyCallback) (int64, error) {
+	verifhook.Crash("tools.copy.begin")
+	defer verifhook.Crash("tools.copy.end")
+	reader = verifhook.BurstReader(reader, "tools.copy.burst")
 	if success, _ := CloneFile(writer, reader); success {
 		if cb != nil {
 			cb(totalSize, totalSize, 0)
